@@ -31,7 +31,7 @@
 From Coq Require Import String.
 From Coq Require Import List Arith Bool Lia ZArith NArith.
 Import ListNotations.
-From YP Require Import Base.Str Term.Term Term.Fast Unify.Unify Unify.Fast Unify.UnifyGen Comp.IR Comp.CompileBody
+From YP Require Import Base.Str Term.Term Term.Fast Term.Dfast Unify.Unify Unify.Fast Unify.UnifyGen Unify.UnifyGenFast Comp.IR Comp.CompileBody
   Sem.IRSem Sem.Machine Engine.GenMachine Engine.Restore.
 Local Open Scope string_scope.
 Local Open Scope list_scope.
@@ -46,14 +46,16 @@ Inductive lx :=
 
 Inductive leaf := LGen (g : gen) | LRaise.
 
-(* unify(a,b) on terms that are too deep for the interpreter or whose unification needs a cyclic
+(* (unify_x, mk_unify_x, next_x, dfast are the evaluation-friendly twins of unify, mk_unify, next, den:
+   Unify/UnifyGenFast.v, Term/Dfast.v - equal to them, without side conditions.)
+   unify(a,b) on terms that are too deep for the interpreter or whose unification needs a cyclic
    term raises RecursionError in the engine (unspecified by the properties); Sem/Machine.v makes
    exactly these cases an error, so does the leaf *)
 Definition mkleaf (x : lx) (h : heap) : leaf :=
   match x with
-  | XUnify a b => match unify_fast ufuel h a b with
+  | XUnify a b => match unify_x ufuel h a b with
                   | UOof | UCyc => LRaise
-                  | _ => LGen (mk_unify h a b) end
+                  | _ => LGen (mk_unify_x h a b) end
   | XArrays xs ys => LGen (GArrFresh xs ys)
   | XOne => LGen (GSucc false)
   | XRaise => LRaise
@@ -61,7 +63,7 @@ Definition mkleaf (x : lx) (h : heap) : leaf :=
 
 Definition lnext (n : nat) (h : heap) (l : leaf) : option (heap * leaf * GenMachine.res) :=
   match l with
-  | LGen g => match next n h g with
+  | LGen g => match next_x n h g with
               | None => None
               | Some (h', g', y) => Some (h', LGen g', if y then RYield else RStop) end
   | LRaise => Some (h, LRaise, RRaise)
@@ -76,7 +78,7 @@ Definition linv (h0 : heap) (l : leaf) (hc : heap) : Prop :=
 Lemma L_new x h : linv h (mkleaf x h) h.
 Proof.
   destruct x as [a b|xs ys| |]; cbn [mkleaf].
-  - destruct (unify_fast ufuel h a b); cbn [linv]; auto; left; split; auto; apply mk_unify_fresh.
+  - rewrite mk_unify_x_eq. destruct (unify_x ufuel h a b); cbn [linv]; auto; left; split; auto; apply mk_unify_fresh.
   - left. split; [exact I|reflexivity].
   - left. split; [exact I|reflexivity].
   - reflexivity.
@@ -86,7 +88,7 @@ Lemma L_next n h0 l hc h' l' r : linv h0 l hc -> lnext n hc l = Some (h', l', r)
   linv h0 l' h' /\ (r = RStop -> h' = h0).
 Proof.
   destruct l as [g|]; cbn [lnext linv]; intros J H.
-  - destruct (next n hc g) as [[[h1 g1] y]|] eqn:N; [|discriminate]. inversion H; subst.
+  - rewrite next_x_eq in H. destruct (next n hc g) as [[[h1 g1] y]|] eqn:N; [|discriminate]. inversion H; subst.
     assert (U: ulnext n hc g = Some (h', g1, if y then RYield else RStop)) by (unfold ulnext; rewrite N; reflexivity).
     exact (U_next _ J U).
   - inversion H; subst. split; [reflexivity|discriminate].
@@ -188,7 +190,7 @@ Definition neq_ir : list stmt :=
    anything else: the code runs into an UnboundLocalError *)
 Definition call_expr (goal : term) (extra : list term) : nat -> fr -> heap -> miexpr :=
   fun g _ h =>
-    match den_fast h goal with
+    match dfast h goal with
     | TAtom a => GenMachine.ECall (a, extra, g)
     | TFun f gargs => GenMachine.ECall (f, gargs ++ extra, g)
     | _ => ELeaf XRaise
@@ -197,7 +199,7 @@ Definition call_expr (goal : term) (extra : list term) : nat -> fr -> heap -> mi
 (* findall: results = makelist([get_value(template) for r in q]) *)
 Definition collect (template : term) : nat -> fr -> heap -> fr :=
   fun g e h => {| f_env := f_env e; f_nxt := f_nxt e; f_fl := f_fl e;
-                  f_acc := f_acc e ++ [den_fast h template]; f_aux := Nat.max (f_aux e) g |}.
+                  f_acc := f_acc e ++ [dfast h template]; f_aux := Nat.max (f_aux e) g |}.
 (* the result list may contain cells created while the goal ran: the counter moves past them *)
 Definition collected : nat -> fr -> heap -> fr :=
   fun _ e _ => {| f_env := f_env e; f_nxt := Nat.max (f_nxt e) (f_aux e); f_fl := f_fl e;
